@@ -43,6 +43,11 @@ def respell(e, rng):
 
 
 def _other_base(b):
+    import random as _r
+    if _r.Random(int(abs(b) * 1000) % 9973).random() < 0.4:
+        nb = math.nextafter(float(b), math.inf) if b != 1 else 1.0000000001
+        if nb != b and nb != 1 and nb > 0:
+            return nb
     nb = b * 2 + 1
     if nb == 1 or nb == b or nb != nb or nb == float('inf'):
         nb = 2.5 if b != 2.5 else 3.5
@@ -78,7 +83,12 @@ def mutate(e, rng):
     path, n = rng.choice(list(nodes(e)))
     c = wire.cls(n)
     if c == "Constant":
-        return "value", replace_at(e, path, X.Constant(n.value + rng.choice([1, -1, 0.5])))
+        v = n.value
+        near = [math.nextafter(float(v), math.inf), float(v) * (1 + 3e-10) if v else 1e-300, float(v) + 1e-12 if abs(v) < 1e3 else float(v) * (1 - 2e-12)]
+        nv = rng.choice([v + 1, v - 1, v + 0.5] + near)
+        if nv == v:
+            nv = v + 1
+        return ("value-near" if nv in near else "value"), replace_at(e, path, X.Constant(nv))
     if c == "Variable":
         return "name", replace_at(e, path, X.Variable(n.name + "_"))
     if c in ("NthPower", "NthRoot"):
